@@ -213,11 +213,17 @@ def run_workspace(ctx, kind, n, split, coq_exprs, coq_meta):
             for name, text in files.items():
                 path = os.path.join(root, name)
                 conn.take()
+                t0 = time.time()
                 impl.did_open(srv, path)
+                dt = time.time() - t0
                 out = conn.take()
                 for o in out:
                     if o[0] == "e" or (o[0] == "n" and o[1] == "window/showMessage" and o[2].get("type") == 1):
                         bad.append(("didOpen", name, None, repr(o)[:200]))
+                # the notification is carried out: diagnostics are published, in time (an endless walk inside the diagnostics pass is
+                # cut by the alarm, which the server's own exception handling may swallow: it shows as a missing publication)
+                if dt > 10.0 or not any(o[0] == "n" and o[1] == "textDocument/publishDiagnostics" for o in out):
+                    bad.append(("didOpen", name, None, "no diagnostics published / %.1f s" % dt))
                 for (li, ch) in identifiers(text):
                     for m in METHODS:
                         p = impl.pos_params(path, li, ch)
